@@ -255,7 +255,7 @@ M("c07-setup-skips-last", "C07", "cola/libcola/colafd.cpp",
   mention=["PROJECTION-COMPLETE", "setupVarsAndConstraints"])
 M("c07-unsat-report-inverted", "C07", "cola/libcola/colafd.cpp",
   "        if((*c)->unsatisfiable) {\n            UnsatisfiableConstraintInfo* i=new UnsatisfiableConstraintInfo(*c);",
-  "        if((*c)->unsatisfiable && !(*c)->equality) {\n            UnsatisfiableConstraintInfo* i=new UnsatisfiableConstraintInfo(*c);", expect="silent")
+  "        if((*c)->unsatisfiable && !(*c)->equality) {\n            UnsatisfiableConstraintInfo* i=new UnsatisfiableConstraintInfo(*c);", mention=["PROJECTION-COMPLETE"])
 M("c07-project-partial-copy", "C07", "cola/libcola/colafd.cpp",
   "    unsigned n=coords.size();\n    vpsc::IncSolver s(vs,cs);\n    s.solve();\n    for(unsigned i=0;i<n;++i) {", "    unsigned n=coords.size();\n    vpsc::IncSolver s(vs,cs);\n    s.solve();\n    for(unsigned i=0;i+1<n;++i) {",
   mention=["PROJECTION-COMPLETE", "cola::project"])
@@ -450,3 +450,27 @@ M("c02-split-not-counted", "C02", "cola/libvpsc/solve_VPSC.cpp",
 M("c02-solve-exit-neutral-bound", "C02", "cola/libvpsc/solve_VPSC.cpp",
   "    unsigned maxtries = 100;\n    while((fabs(lastcost-cost)>0.0001) || ((splitCnt>0) && (maxtries-->0))) {",
   "    unsigned maxtries = 200;\n    while((fabs(lastcost-cost)>0.0001) || ((maxtries-->0) && (splitCnt!=0))) {", expect="fire", mention=["SIBLING"])
+
+# ---------------------------------------------------------------- C12
+M("c12-junction-target-dropped", "C12", "cola/libavoid/hyperedgetree.cpp",
+  "        ConnEnd connend(endNode->junction);\n        conn->updateEndPoint(VertID::tar, connend);",
+  "        ConnEnd connend(endNode->junction);\n        if (endNode->edges.size() > 2) conn->updateEndPoint(VertID::tar, connend);",
+  mention=["TREE-WRITEBACK", "degree-2 junction"])
+M("c12-connector-listed-twice", "C12", "cola/libavoid/hyperedgetree.cpp",
+  "    if (foundPosition == connectors.end())\n    {\n        // Add connector if it isn't already in the list.",
+  "    if (foundPosition == connectors.end() || ends.first->junction)\n    {\n        // Add connector if it isn't already in the list.",
+  mention=["TREE-WRITEBACK"])
+M("c12-new-conn-per-edge", "C12", "cola/libavoid/hyperedgetree.cpp",
+  "            // passed in to the method.\n\n            if (junction)\n            {",
+  "            // passed in to the method.\n\n            if (junction || edges.size() == 2)\n            {",
+  mention=["TREE-WRITEBACK"])
+M("c12-route-misses-first-point", "C12", "cola/libavoid/hyperedgetree.cpp",
+  "        if (conn->m_display_route.empty())\n        {", "        if (conn->m_display_route.empty() && prevNode->junction == nullptr)\n        {",
+  mention=["TREE-WRITEBACK"])
+M("c12-deleted-junctions-kept", "C12", "cola/libavoid/hyperedge.cpp",
+  "            m_router->deleteJunction(*curr);", "            if ((*curr)->positionFixed() == false) m_router->deleteJunction(*curr);",
+  mention=["REROUTE-LISTS"])
+M("c12-neutral-rename", "C12", "cola/libavoid/hyperedgetree.cpp",
+  "    HyperedgeTreeNode *endNode = nullptr;\n    if (ends.first && (ends.first != ignored))\n    {\n        endNode = ends.first;\n        ends.first->addConns(this, router, oldConns, conn);",
+  "    HyperedgeTreeNode *endNode = nullptr;\n    if (ends.first && (ends.first != ignored))\n    {\n        HyperedgeTreeNode *fst = ends.first;\n        endNode = fst;\n        fst->addConns(this, router, oldConns, conn);",
+  expect="silent")
